@@ -60,6 +60,22 @@ pub struct Broker {
     pub connack_sent: bool,
     /// Maximum QoS of the CONNACK that accepted the current connection
     pub announced_max_qos: Option<u8>,
+    /// Maximum Packet Size of the last CONNACK the *client* accepted in its current session (what
+    /// the client may retain is a matter of the client's session, whatever the broker remembers)
+    pub announced_max_packet: Option<Option<u32>>,
+    pub last_connack_mp: Option<u32>,
+    /// (identifier, encoded length, PUBREL seen) of every identifier-bearing request received in
+    /// this broker session: what the client may still retain and would have to retransmit
+    pub maybe_retained: Vec<(u16, u32, bool)>,
+    /// an identifier-bearing request was cancelled or failed: the broker cannot tell what the
+    /// client retains
+    pub epoch_uncertain: bool,
+    /// identifier-bearing requests the client accepted (told by the interpreter) / whose first
+    /// transmission arrived here, in this broker session
+    pub accepted_requests: u32,
+    pub received_requests: u32,
+    pub mps_shrinks_applied: u32,
+    pub mps_shrinks_withheld: u32,
     pub outstanding: Vec<Outst>,
     /// acknowledgements already sent in this broker session (type, id)
     pub acked: Vec<(Outst, u8)>,
@@ -94,6 +110,14 @@ impl Broker {
             connect_seen: None,
             connack_sent: false,
             announced_max_qos: None,
+            announced_max_packet: None,
+            last_connack_mp: None,
+            maybe_retained: Vec::new(),
+            epoch_uncertain: false,
+            accepted_requests: 0,
+            received_requests: 0,
+            mps_shrinks_applied: 0,
+            mps_shrinks_withheld: 0,
             outstanding: Vec::new(),
             acked: Vec::new(),
             q2_answered: Vec::new(),
@@ -155,6 +179,42 @@ impl Broker {
         self.inbound.len() != before || tr.eof != eof_before
     }
 
+    fn note_request(&mut self, pid: u16, p: &Packet) {
+        let len = rc::encode(p).len() as u32;
+        // first transmissions (counted low on purpose: an identifier seen before is taken for a
+        // retransmission even if it was reused)
+        let first = match p {
+            Packet::Publish(pb) => !pb.dup,
+            _ => !self.maybe_retained.iter().any(|e| e.0 == pid),
+        };
+        if first {
+            self.received_requests += 1;
+        }
+        self.maybe_retained.retain(|e| e.0 != pid);
+        self.maybe_retained.push((pid, len, false));
+    }
+
+    /// Smallest Maximum Packet Size under which everything the client may still retain from this
+    /// broker session can be retransmitted (a retained packet above the limit blocks the
+    /// connection: that is C14's subject, not a limit a broker may spring on a session).
+    /// connect() returned on the client side: `fresh` = it discarded its session state.
+    pub fn client_connected(&mut self, fresh: bool) {
+        if fresh {
+            self.maybe_retained.clear();
+            self.epoch_uncertain = false;
+            self.accepted_requests = 0;
+            self.received_requests = 0;
+        }
+        self.announced_max_packet = Some(self.last_connack_mp);
+    }
+
+    fn retransmission_floor(&self) -> u32 {
+        if self.epoch_uncertain || self.received_requests < self.accepted_requests {
+            return u32::MAX;
+        }
+        self.maybe_retained.iter().map(|e| if e.2 { 5 } else { e.1 }).max().unwrap_or(0).max(5)
+    }
+
     fn on_packet(&mut self, tr: &mut Transport, p: &Packet) {
         let auto = self.mode == BrokerMode::AutoAck;
         match p {
@@ -181,6 +241,7 @@ impl Broker {
             }
             Packet::Publish(pb) => {
                 if let Some(pid) = pb.pid {
+                    self.note_request(pid, p);
                     let kind = if pb.qos == 1 { OutKind::Pub1 } else { OutKind::Pub2 };
                     if !self.outstanding.iter().any(|o| o.pid == pid && o.kind == kind) {
                         self.outstanding.push(Outst { kind, pid });
@@ -191,6 +252,9 @@ impl Broker {
                 }
             }
             Packet::PubRel(a) => {
+                if let Some(e) = self.maybe_retained.iter_mut().find(|e| e.0 == a.pid) {
+                    e.2 = true;
+                }
                 // the client has seen a PUBREC for this exchange: an unanswered retransmission of
                 // its PUBLISH no longer needs (and must not get a different) PUBREC
                 self.outstanding.retain(|o| !(o.pid == a.pid && o.kind == OutKind::Pub2));
@@ -202,12 +266,14 @@ impl Broker {
                 }
             }
             Packet::Subscribe { pid, filters, .. } => {
+                self.note_request(*pid, p);
                 self.outstanding.push(Outst { kind: OutKind::Sub(filters.len()), pid: *pid });
                 if auto {
                     self.ack_outstanding(tr, self.outstanding.len() - 1, 0, AckForm::Short);
                 }
             }
             Packet::Unsubscribe { pid, filters, .. } => {
+                self.note_request(*pid, p);
                 self.outstanding.push(Outst { kind: OutKind::Unsub(filters.len()), pid: *pid });
                 if auto {
                     self.ack_outstanding(tr, self.outstanding.len() - 1, 0, AckForm::Short);
@@ -256,6 +322,24 @@ impl Broker {
         }
     }
 
+    /// The planned Maximum Packet Size, unless it is smaller than on the previous connection of a
+    /// resumed session and something the client may still retain would not fit: then the previous
+    /// value stays in force.
+    fn effective_max_packet(&self, resumed: bool) -> Option<u32> {
+        let planned = self.plan.props.max_packet;
+        let (true, Some(prev)) = (resumed, self.announced_max_packet) else { return planned };
+        let shrinks = match (planned, prev) {
+            (Some(m), Some(q)) => m < q,
+            (Some(_), None) => true,
+            _ => false,
+        };
+        if shrinks && planned.is_some_and(|m| m < self.retransmission_floor()) {
+            prev
+        } else {
+            planned
+        }
+    }
+
     fn connack_packet(&self, sp: bool, reason: u8) -> Packet {
         // A conformant broker never exceeds the client's Maximum Packet Size: optional properties
         // are dropped first, then the per-connection ones. Maximum Packet Size / Maximum QoS are
@@ -271,7 +355,7 @@ impl Broker {
             if let Some(v) = p.receive_max {
                 rm.push(Prop::ReceiveMaximum(v));
             }
-            if let Some(v) = p.max_packet {
+            if let Some(v) = self.effective_max_packet(sp) {
                 stable.push(Prop::MaximumPacketSize(v));
             }
             if let Some(v) = p.max_qos {
@@ -316,6 +400,16 @@ impl Broker {
                 }
                 self.session_exists = true;
                 let p = self.connack_packet(can_resume, 0);
+                let mp = match &p {
+                    Packet::ConnAck { props, .. } => props.iter().find_map(|x| if let Prop::MaximumPacketSize(q) = x { Some(*q) } else { None }),
+                    _ => None,
+                };
+                if can_resume && self.plan.props.max_packet != mp && self.plan.props.max_packet.is_some() {
+                    self.mps_shrinks_withheld += 1;
+                } else if can_resume && self.announced_max_packet.is_some_and(|prev| prev != mp) && mp.is_some() {
+                    self.mps_shrinks_applied += 1;
+                }
+                self.last_connack_mp = mp;
                 self.announced_max_qos = match &p {
                     Packet::ConnAck { props, .. } => props.iter().find_map(|x| if let Prop::MaximumQoS(q) = x { Some(*q) } else { None }),
                     _ => None,
@@ -902,6 +996,24 @@ impl World {
             let t = tr.borrow();
             (t.touches, t.io_calls, t.id)
         };
+        {
+            // tell the broker model what the client may retain without the broker knowing
+            let r = &self.trace.ops[cx.op];
+            let id_bearing = matches!(r.kind, OpKind::Subscribe | OpKind::Unsubscribe)
+                || (r.kind == OpKind::Publish && r.request.is_some_and(|q| self.trace.requests[q].qos > 0));
+            if id_bearing {
+                match &res {
+                    OpRes::Handle(_) => self.broker.accepted_requests += 1,
+                    OpRes::Cancelled { .. } => self.broker.epoch_uncertain = true,
+                    OpRes::Err(e) => {
+                        if !matches!(e, ErrKind::NotReady | ErrKind::InvalidRequest | ErrKind::PacketTooLarge | ErrKind::BufferTooSmall | ErrKind::InflightExhausted | ErrKind::Disconnected | ErrKind::Payload) {
+                            self.broker.epoch_uncertain = true;
+                        }
+                    }
+                    _ => {}
+                }
+            }
+        }
         let r = &mut self.trace.ops[cx.op];
         r.res = res.clone();
         r.touches = (cx.touches0, touches1);
@@ -984,6 +1096,7 @@ pub fn run_case_with(case: &Case, tweak: impl FnOnce(&mut World)) -> Trace {
     trace.inb = w.transports.iter().map(|t| t.borrow().inbound.clone()).collect();
     trace.inbound = std::mem::take(&mut w.broker.inbound);
     trace.now_calls = clock::now_calls();
+    trace.mps_shrinks = (w.broker.mps_shrinks_applied, w.broker.mps_shrinks_withheld);
     trace
 }
 
@@ -1035,6 +1148,11 @@ fn interpret(case: &Case, w: &mut World) {
         let res = conn_res(&out, |c: &Connection<'_, '_, SimIo>| c.connect_event());
         w.trace.conns.push((trid, res));
         w.ev(Event::ConnEnd { tr: trid, res });
+        match res {
+            ConnRes::Connected => w.broker.client_connected(true),
+            ConnRes::Reconnected => w.broker.client_connected(false),
+            _ => {}
+        }
         let mut conn = match out {
             Outcome::Done(Ok(c)) => c,
             _ => {
